@@ -171,10 +171,17 @@ func (hc *HistCheck) RunLayers(layers []Layer, budget time.Duration, assumptions
 	deadline := time.Now().Add(budget)
 	total := &explore.Stats{Exhaustive: true, Outcomes: map[string]int{}}
 	var reports []LayerReport
-	for _, l := range layers {
+	for li, l := range layers {
+		// No layer may eat the whole budget: each gets at most twice its even share of what is left.
+		ld := deadline
+		if left := time.Until(deadline); left > 0 {
+			if share := time.Now().Add(2 * left / time.Duration(len(layers)-li)); share.Before(ld) {
+				ld = share
+			}
+		}
 		o := explore.Options{
 			Alphabet: l.Alphabet, Depth: l.Depth, Seed: l.Seeds, Merge: l.Merge,
-			Deadline: deadline, MaxRuns: l.MaxRuns, Shuffle: ev.Seed(), Filter: l.Filter,
+			Deadline: ld, MaxRuns: l.MaxRuns, Shuffle: ev.Seed(), Filter: l.Filter,
 		}
 		st := explore.BFS(o, hc.RunFunc(l))
 		total.Add(st)
